@@ -339,7 +339,7 @@ def plan(tier, parts):
         add("ctor", {"k": "ctor", "which": "aead"})
         add("ctor", {"k": "ctor", "which": "hp"})
         bounds["ctor"] = {"aead_names": len(W.AEAD_NAMES), "hp_names": len(W.HP_NAMES),
-                          "key_len": "0..40", "iv_len": "0..40"}
+                          "key_len": "0..40, 64, 4096", "iv_len": "0..40, 64, 4096"}
     if "buffer" in parts:
         add("buffer", {"k": "buffer_ctor"}, True)
     if "lib_send" in parts:
